@@ -29,6 +29,8 @@ static const char *g_phase = "";
 const Program &current_program() { return g_prog; }
 void set_phase(const char *p) { g_phase = p; }
 const char *phase() { return g_phase; }
+static int g_scale = 0;
+int scale() { return g_scale; }
 
 const Scenario *find_scenario(const std::string &name)
 {
@@ -536,6 +538,7 @@ static int cmd_explore(std::map<std::string, std::string> &a)
   const int profile = atoi(a["profile"].c_str());
   const size_t nsamples = a.count("samples") ? static_cast<size_t>(atoi(a["samples"].c_str())) : 2;
   if (a.count("replay-dir")) g_replay_dir = a["replay-dir"];
+  if (a.count("scale")) g_scale = atoi(a["scale"].c_str());
   g_scn = find_scenario(a["scenario"]);
   if (!g_scn) {
     fprintf(stderr, "unknown scenario\n");
